@@ -23,6 +23,8 @@ pub enum OpResult {
     SessionExpired,
     RadioErr,
     NotJoined,
+    /// the uplink was refused because it does not fit a frame
+    TooLarge,
     StateErr(String),
     /// Listen: results of the successive `rxc_listen` calls; the last (pending) call is dropped
     Listened(Vec<OpResult>),
@@ -114,6 +116,15 @@ pub fn make_session(keys: &crate::refcodec::SessionKeys, fcnt_up: u32, fcnt_down
     serde_json::from_value(v).expect("patched session deserialises")
 }
 
+/// Deserialise a stored session; a panic inside the deserialiser is reported as `Err("PANIC ...")`.
+fn parse_session(env: &EnvRef, json: &str) -> Result<Session, String> {
+    match guarded(env, || serde_json::from_str::<Session>(json)) {
+        Ok(r) => r.map_err(|e| e.to_string()),
+        Err(OpResult::Panic { msg, loc }) => Err(format!("PANIC {msg} at {loc}")),
+        Err(other) => Err(format!("PANIC {other:?}")),
+    }
+}
+
 fn otaa_mode(id: &Identity) -> JoinMode {
     JoinMode::OTAA { deveui: DevEui::from(id.deveui), appeui: AppEui::from(id.appeui), appkey: AppKey::from(id.appkey) }
 }
@@ -198,6 +209,7 @@ impl<const P: u8, const G: i8> AsyncDut<P, G> {
             Ok(S::NoAck) => OpResult::NoAck,
             Ok(S::RxComplete) => OpResult::RxComplete,
             Err(async_device::Error::Radio(_)) => OpResult::RadioErr,
+            Err(async_device::Error::Mac(lorawan_device::mac::Error::PayloadTooLarge)) => OpResult::TooLarge,
             Err(async_device::Error::Mac(_)) => OpResult::NotJoined,
         }
     }
@@ -281,7 +293,7 @@ impl<const P: u8, const G: i8> Dut for AsyncDut<P, G> {
         self.dev.get_session().map(|s| serde_json::to_string(s).expect("session serialises"))
     }
     fn restore_from_json(&mut self, json: &str) -> Result<(), String> {
-        let s: Session = serde_json::from_str(json).map_err(|e| e.to_string())?;
+        let s: Session = parse_session(&self.env, json)?;
         self.dev = Self::build(&self.env, Some(s), self.class_c);
         Ok(())
     }
@@ -436,6 +448,7 @@ impl<const P: u8, const G: i8> NbDut<P, G> {
                     // otherwise the application retries the event below (the fault is consumed)
                 }
                 Err(nb_device::Error::State(s)) => return OpResult::StateErr(format!("{s:?}")),
+                Err(nb_device::Error::Mac(lorawan_device::mac::Error::PayloadTooLarge)) => return OpResult::TooLarge,
                 Err(nb_device::Error::Mac(_)) => return OpResult::NotJoined,
             }
             // decide the next event
@@ -561,7 +574,7 @@ impl<const P: u8, const G: i8> Dut for NbDut<P, G> {
         self.dev.get_session().map(|s| serde_json::to_string(s).expect("session serialises"))
     }
     fn restore_from_json(&mut self, json: &str) -> Result<(), String> {
-        let s: Session = serde_json::from_str(json).map_err(|e| e.to_string())?;
+        let s: Session = parse_session(&self.env, json)?;
         self.dev = Self::build(&self.env, Some(s));
         Ok(())
     }
